@@ -756,6 +756,10 @@ impl Mon {
                 }
             } else {
                 for (i, s) in segs.iter().enumerate() {
+                    // (the peer's limit as known before this call: 65527 until its parameters arrive)
+                    if s.len() as u64 > pre.probe.peer_max_udp_payload_size {
+                        self.violate("C13", format!("conn {ei}/{ch}: datagram {i} of {} bytes exceeds the peer's max_udp_payload_size {}", s.len(), pre.probe.peer_max_udp_payload_size));
+                    }
                     if s.len() > pre.mtu as usize {
                         self.violate(
                             "C13",
